@@ -894,7 +894,17 @@ class PDFDocument:
                     continue
                 try:
                     if strmid is not None:
-                        stream = stream_value(self.getobj(strmid))
+                        if objid in self._parsing_objs:
+                            # e.g. an object stream that is listed as a
+                            # member of itself
+                            raise PDFSyntaxError(
+                                f"Object {objid} is needed to parse itself"
+                            )
+                        self._parsing_objs.add(objid)
+                        try:
+                            stream = stream_value(self.getobj(strmid))
+                        finally:
+                            self._parsing_objs.discard(objid)
                         obj = self._getobj_objstm(stream, index, objid)
                     else:
                         if objid in self._parsing_objs:
